@@ -124,7 +124,7 @@ fn word(x: u8) -> String {
     }
 }
 
-const WORDS: &[&str] = &["a", "b", "id", "name", "xmlns:x", "type", "é", "a-b", "A", "", "x:y", "名"];
+const WORDS: &[&str] = &["a", "b", "id", "name", "xmlns:x", "type", "é", "a-b", "A", "", "x:y", "名", "значение_от", "значение_до", "配送先住所番号", "配送先住所氏名", "ééééééééa", "ééééééééb"];
 
 impl Property for C15 {
     fn id(&self) -> &'static str {
